@@ -239,6 +239,10 @@ func (m *mon) observe(h *ctl.Harness, r ctl.Rec, payload any) {
 				}
 			}
 		}
+	case "begin":
+		if r.Kind == "DeleteShard" {
+			m.epoch[r.Node]++
+		}
 	case "recv":
 		if r.Kind == "NewTerm" && r.OK && r.Inc > 0 {
 			if m.delivered[r.Inc] == nil {
@@ -308,6 +312,14 @@ func (m *mon) poll() {
 		ackedBefore, had := m.maxAcked[n.Name]
 		ep := m.epoch[n.Name]
 		m.mu.Unlock()
+		// what a node has applied is committed, whatever role the node has now (a fenced ex-leader still shows it)
+		if a := n.AppliedOffset(); a >= 0 {
+			m.mu.Lock()
+			if a > m.maxCommit {
+				m.maxCommit = a
+			}
+			m.mu.Unlock()
+		}
 		st, err := n.GetStatus()
 		if err != nil {
 			continue
@@ -315,7 +327,27 @@ func (m *mon) poll() {
 		m.r.Count("status_polls", 1)
 		m.mu.Lock()
 		if had && m.epoch[n.Name] == ep && st.Term < ackedBefore && !m.silent {
-			m.r.Violate(m.prop+"/node-term-went-backwards", fmt.Sprintf("%s reports term %d after having answered NewTerm(%d)", n.Name, st.Term, ackedBefore), nil)
+			// the term lives in the database, which a snapshot install wipes first: a node that restarts in the
+			// middle of one comes back without its term (known finding); anything else is reported plainly
+			cause := ""
+			open := false
+			for _, e := range m.h.C.Events() {
+				if e.Node != n.Name {
+					continue
+				}
+				switch e.Kind {
+				case "snapshot-open":
+					open = true
+				case "snapshot-closed":
+					if e.Note == "<nil>" {
+						open = false
+					}
+				}
+			}
+			if open {
+				cause = "/after-an-interrupted-snapshot-install"
+			}
+			m.r.Violate(m.prop+"/node-term-went-backwards"+cause, fmt.Sprintf("%s reports term %d after having answered NewTerm(%d)", n.Name, st.Term, ackedBefore), nil)
 		}
 		if st.Status == proto.ServingStatus_LEADER && st.CommitOffset > m.maxCommit {
 			m.maxCommit = st.CommitOffset
